@@ -1019,6 +1019,14 @@ class Scene(Geometry3D):
         graph.from_edgelist(edges)
 
         geometry_names = {e[2]["geometry"] for e in edges if "geometry" in e[2]}
+        # the geometry of `node` itself hangs on the edge leading to
+        # `node` which is not part of the result: keep that instance
+        # as a child of the new base frame placed at the identity
+        own = self.graph.transforms.node_data[node].get("geometry")
+        if own is not None:
+            name = unique_name(str(node), set(self.graph.transforms.node_data.keys()))
+            graph.update(frame_to=name, frame_from=node, matrix=np.eye(4), geometry=own)
+            geometry_names.add(own)
         geometry = {k: self.geometry[k] for k in geometry_names}
         result = Scene(geometry=geometry, graph=graph)
         return result
